@@ -290,6 +290,8 @@ def explore_shard(acc, shard):
         case = {"kind": "special", "timeline": TC.fmt_tl(tl), "beats": [str(b) for b in beats], "label": label}
         core.guard(acc, case)
         fails = check_special(tl, beats)
+        with core.decimal_precision(6):
+            fails += [dict(f, clause=f["clause"] + " (decimal context precision 6)") for f in check_special(tl, beats)]
         acc.count("states")
         acc.count("transitions")
         acc.count("evaluations", len(beats) * 4)
